@@ -57,5 +57,10 @@ RT2 == {[k |-> "rt2", type |-> "P1", first |-> Full1, second |-> v] : v \in Rec1
        \cup {[k |-> "rt2", type |-> "P2", first |-> Full2, second |-> v] : v \in Rec2}
        \cup {[k |-> "rt2", type |-> "P3", first |-> Full3, second |-> v] : v \in Rec3}
        \cup {[k |-> "rt2", type |-> "P4", first |-> Full4, second |-> v] : v \in Rec4}
-ASSUME Emit(SetToSeq(Desc) \o SetToSeq(RT \cup Pass \cup Missing) \o SetToSeq(RT2) \o SetToSeq(RT6))
+\* several values in one document, decoded into a slice: a fully populated value first, any value second, and back
+RTS == {[k |-> "rt_slice", type |-> "P1", values |-> <<Full1, v, Full1>>] : v \in {w \in Rec1 : w.Req # <<>>}}
+       \cup {[k |-> "rt_slice", type |-> "P2", values |-> <<Full2, v>>] : v \in Rec2}
+       \cup {[k |-> "rt_slice", type |-> "P3", values |-> <<Full3, v>>] : v \in {w \in Rec3 : w.ReqL # <<>>}}
+       \cup {[k |-> "rt_slice", type |-> "P4", values |-> <<Full4, v>>] : v \in Rec4}
+ASSUME Emit(SetToSeq(Desc) \o SetToSeq(RT \cup Pass \cup Missing) \o SetToSeq(RT2) \o SetToSeq(RT6) \o SetToSeq(RTS))
 =============================================================================
